@@ -73,3 +73,11 @@ package xsub
 //@   before select#1 assert selwaits(s.sizeQ) && selwaits(s.recvQ)
 //@
 // ---- end generated current-queue contracts ----
+// ---- generated AddPipe contracts (tools/gen_addpipe_contracts.py) ----
+//@ func (*socket).AddPipe
+//@   ghost wasClosed = s.closed at call:Lock#1
+//@   ensures wasClosed ==> result == protocol.ErrClosed && !spawned("receiver") && !spawned("sender")
+//@   ensures !wasClosed && isnil(result) ==> spawned("receiver")
+//@   ensures !wasClosed ==> isnil(result)
+//@
+// ---- end generated AddPipe contracts ----
